@@ -137,9 +137,21 @@ def str_mapper(parent, data):
     return data["str"]
 
 
+def str_chk_serialize_mapper(node, data):
+    """a serialize mapper for STRING nodes (typed string nodes are always written as dict entries): adds a field"""
+    data["chk"] = len(node.data)
+    return data
+
+
+def str_chk_deserialize_mapper(parent, data):
+    if data.get("chk") != len(data["str"]):
+        raise ValueError(f"entry lacks the field the serialize mapper added: {data!r}")
+    return data["str"]
+
+
 PROFILES = ["str", "obj", "obj_falsy", "obj_pop", "obj_fwd", "dictwrap", "derived", "typed_str", "typed_obj", "typed_derived", "fs", "fs_plain"]
 # profiles that only C05 uses: a typed tree of DictWrapper objects with the library's DictWrapper mappers
-C05_PROFILES = PROFILES + ["typed_dictwrap"]
+C05_PROFILES = PROFILES + ["typed_dictwrap", "typed_str_chk"]
 DW_KINDS = ["child", "x", "y", "z"]
 
 
@@ -166,7 +178,7 @@ class Profile:
             return Tree("T")
         if n == "derived":
             return MyTree("T")
-        if n == "typed_str":
+        if n in ("typed_str", "typed_str_chk"):
             return TypedTree("T")
         if n == "typed_obj":
             return TypedTree("T", calc_data_id=_calc_id)
@@ -178,13 +190,13 @@ class Profile:
 
     def cls(self):
         return {"str": Tree, "obj": Tree, "obj_falsy": Tree, "obj_pop": Tree, "obj_fwd": Tree, "fs_plain": Tree, "dictwrap": Tree, "derived": MyTree, "typed_str": TypedTree,
-                "typed_obj": TypedTree, "typed_derived": MyTypedTree, "fs": FileSystemTree, "typed_dictwrap": TypedTree}[self.name]
+                "typed_obj": TypedTree, "typed_derived": MyTypedTree, "fs": FileSystemTree, "typed_dictwrap": TypedTree, "typed_str_chk": TypedTree}[self.name]
 
     def data(self, label):
         if label in self.pool:
             return self.pool[label]
         n = self.name
-        if n in ("str", "typed_str"):
+        if n in ("str", "typed_str", "typed_str_chk"):
             d = label
         elif n == "obj_falsy":
             d = FalsyItem(label, guid="f-" + label)
@@ -204,10 +216,11 @@ class Profile:
         return d
 
     def allows_explicit_ids(self):
-        return self.name in ("str", "typed_str")
+        return self.name in ("str", "typed_str", "typed_str_chk")
 
     def build(self, spec):
         tree = self.new_tree()
+        seq = [0]
 
         def add_all(parent, items):
             for item in items:
@@ -225,6 +238,10 @@ class Profile:
                     # first occurrence (written as a full entry) could not be re-united on load by any reader:
                     # here the kind is a function of the label
                     kw["kind"] = DW_KINDS[(LABELS.index(label) if label in LABELS else len(label)) % len(DW_KINDS)]
+                if self.typed and len(kw["kind"]) >= 2:
+                    seq[0] += 1
+                    if seq[0] % 2:
+                        kw["kind"] = "".join(list(kw["kind"]))  # an equal kind that is another str object (as after a load)
                 n = parent.add(self.data(label), **kw)
                 add_all(n, item[1])
 
@@ -240,6 +257,8 @@ class Profile:
             return FileSystemTree.serialize_mapper  # the class mappers used as callbacks on a plain Tree
         if n in ("dictwrap", "typed_dictwrap"):
             return DictWrapper.serialize_mapper
+        if n == "typed_str_chk":
+            return str_chk_serialize_mapper
         return None
 
     def load_mapper(self, tree):
@@ -252,6 +271,8 @@ class Profile:
             return FileSystemTree.deserialize_mapper
         if n in ("dictwrap", "typed_dictwrap"):
             return DictWrapper.deserialize_mapper
+        if n == "typed_str_chk":
+            return str_chk_deserialize_mapper
         if n in ("str", "typed_str"):
             # dict entries occur for explicit ids (and always for typed trees); the base
             # Tree.deserialize_mapper is documented to raise, TypedTree's handles {"str","kind"}
@@ -309,8 +330,10 @@ class Profile:
     def possible_keys(self):
         n = self.name
         keys = ["data_id"]
-        if n in ("str", "typed_str"):
+        if n in ("str", "typed_str", "typed_str_chk"):
             keys.append("str")
+        if n == "typed_str_chk":
+            keys.append("chk")
         if self.typed:
             keys.append("kind")
         if n in ("obj", "obj_pop", "obj_fwd", "derived", "typed_obj", "typed_derived"):
@@ -327,7 +350,7 @@ class Profile:
         """keys with string values that a custom value_map may list."""
         n = self.name
         out = []
-        if n in ("str", "typed_str"):
+        if n in ("str", "typed_str", "typed_str_chk"):
             out.append("str")
         if self.typed:
             out.append("kind")
@@ -363,6 +386,20 @@ def resolve_value_map(vm, tree, profile):
     return out
 
 
+def with_duplicate(vm, k):
+    """the same value_map with one value listed a second time (in front of at least one other value, if possible)"""
+    if not isinstance(vm, dict):
+        return vm
+    out = {}
+    for key, vals in vm.items():
+        vals = list(vals)
+        if len(vals) >= 2:
+            i = k % (len(vals) - 1)
+            vals.insert(i + 1, vals[i])
+        out[key] = vals
+    return out
+
+
 COMPRESSIONS = [False, True, zipfile.ZIP_STORED, zipfile.ZIP_DEFLATED, zipfile.ZIP_BZIP2, zipfile.ZIP_LZMA]
 
 
@@ -372,6 +409,8 @@ def save_tree(tree, profile, cfg, tmpdir, tag):
     if cfg.get("key_map", True) is not True:
         kw["key_map"] = cfg["key_map"]
     vm = resolve_value_map(cfg.get("value_map", True), tree, profile)
+    if cfg.get("value_map_dup") is not None:
+        vm = with_duplicate(vm, cfg["value_map_dup"])
     if vm is not True:
         kw["value_map"] = vm
     m = profile.save_mapper()
@@ -476,6 +515,8 @@ def config(draw, profile_name):
     elif vm == "custom":
         cand = p.value_map_candidates()
         cfg["value_map"] = draw(st.lists(st.sampled_from(cand), min_size=1, max_size=len(cand), unique=True)) if cand else True
+        if cand and draw(st.sampled_from([0, 0, 1])):
+            cfg["value_map_dup"] = draw(st.integers(0, 5))  # the caller's list names one value twice
     cfg["target"] = draw(st.sampled_from(["str", "path", "file", "stringio", "file-ascii"]))
     if cfg["target"] in ("str", "path"):
         cfg["compression"] = draw(st.sampled_from(COMPRESSIONS))
